@@ -12,7 +12,7 @@ ASSUME = ["functions are drawn from the finite menu of spec/Cartesian.tla (ariti
           "copied, swapped, discarded and tested like any value; arithmetic on it must raise TypeError)",
           "bounded: all cartesian diagrams within the model constants (sampled for replay in the quick tier)"]
 CONST = {"quick": {"MaxBoxes": 3, "MaxWidth": 3, "replay": 2500, "tuples": 6, "N": 4},
-         "thorough": {"MaxBoxes": 4, "MaxWidth": 3, "replay": 60000, "tuples": 8, "N": 5}}
+         "thorough": {"MaxBoxes": 4, "MaxWidth": 3, "replay": 20000, "tuples": 8, "N": 5}}
 INPUTS = (-1, 0, 2, 7)
 NONE = -1000          # code of the opaque value (Python None) in the spec and in recorded tuples
 W = [1, 0]
